@@ -151,7 +151,7 @@ def random_stream(rng, emu, w, h, ntok, toks=None, resize=False, light=False):
         out.append(b); names.append(n)
     return b''.join(out), names
 
-def malformed_stream(rng, emu, n, music=False):
+def malformed_stream(rng, emu, n, music=False, huge=True):
     """character level: raw random bytes biased to the bytes that drive the state machines"""
     hot = b'\x1b[];?=!<*$ 0123456789;;;mHfABCDsurMLPXbYZtq\\\x07\x08\x09\x0a\x0c\x0d\x7f\x16\x19\x01@|#.+-<>OTLNPCDEFGAB\x0eh'
     out = bytearray()
@@ -160,7 +160,7 @@ def malformed_stream(rng, emu, n, music=False):
         if r < 0.55: out.append(rng.choice(hot))
         elif r < 0.75: out.append(rng.randrange(256))
         elif r < 0.85: out += b'\x1b['
-        elif r < 0.90: out += str(rng.choice([0, 1, 2, 25, 80, 255, 2147483647, 99999999999])).encode()
+        elif r < 0.90: out += str(rng.choice([0, 1, 2, 25, 80, 255, 2147483647, 99999999999] if huge else [0, 1, 2, 25, 80, 255, 999])).encode()
         elif r < 0.93: out += rng.choice([b'\x1bP', b'\x1b]', b'\x1b_', b'\x1b\\'])
         elif r < 0.96 and music: out += rng.choice([b'\x1b[M', b'\x1b[N', b'\x1b[|'])
         else: out += b'\n' * rng.choice([1, 3, 30])
